@@ -35,6 +35,9 @@ def noise_for(rng, which):
     if rng.random() < 0.2:
         # a progress line redrawn with a bare CR (or another inline break): it is still one line, and no result line
         return "Compiling 10%" + rng.choice(INLINE_BREAKS) + "Compiling 100%" + rng.choice(INLINE_BREAKS) + LOOKS_LIKE[which]
+    if which == 0 and rng.random() < 0.1:
+        # the benchmark name is [^\s]+ : a no-break space (or another Unicode space) inside it makes the line noise
+        return "a%sb: iterations=1 runtime: 5ms" % rng.choice(["\u00a0", "\u3000", "\x85", "\u2028"])
     while True:
         l = A.noise_line(rng)
         if which == 1:
@@ -74,8 +77,19 @@ def render(rng, which):
                 if crit == "total" or crit in used:
                     continue
                 used.add(crit)
+                if rng.random() < 0.25:
+                    # docs/extensions.md: a named criterion on the log line itself, [\w\.]+ - letters of any script
+                    crit = A.word(rng, ".", hi=6) if rng.random() < 0.5 else rng.choice(["gréße", "mémoire", "中.µ", "gc.time", "ª٣"])
+                    if crit == "total" or crit in used:
+                        continue
+                    used.add(crit)
+                    v, u = n(rng), rng.choice("mu")
+                    lines.append("%s%s %s: iterations=%d runtime: %s%ss" % (prefix, name, crit, rng.randint(1, 9999), v, u))
+                    dp.append((crit, "ms", frac(v) / (1000 if u == "u" else 1)))
+                    continue
                 v, u = n(rng), rng.choice(["kb", "byte", "ms", "B", "s", "MiB"])
-                lines.append("%s%s: %s:%s%s%s" % (prefix, name, crit, rng.choice(["", " ", "    ", "\t"]), v, u))
+                # \s* after the colon: white space of any script
+                lines.append("%s%s: %s:%s%s%s" % (prefix, name, crit, rng.choice(["", " ", "    ", "\t", "\u00a0", "\u3000 ", " \x85"]), v, u))
                 dp.append((crit, u, frac(v)))
                 maybe_noise(0.1)
             if rng.random() < 0.2:
